@@ -1,28 +1,13 @@
 package discovery
 
-import metav1 "k8s.io/apimachinery/pkg/apis/meta/v1"
+import "k8s.io/client-go/discovery"
 
-func VerifNewAPIResource(apiVersion string, r metav1.APIResource, subresources ...string) *APIResource {
-	a := &APIResource{APIResource: r, APIVersion: apiVersion}
-	for _, s := range subresources {
-		if a.subresourceMap == nil {
-			a.subresourceMap = map[string]bool{}
-		}
-		a.subresourceMap[s] = true
-	}
-	return a
-}
-
-func VerifNewResourceMap(rs ...*APIResource) *ResourceMap {
-	rm := &ResourceMap{groupVersions: map[string]groupVersionEntry{}}
-	for _, r := range rs {
-		gve, ok := rm.groupVersions[r.APIVersion]
-		if !ok {
-			gve = groupVersionEntry{resources: map[string]*APIResource{}, kinds: map[string]*APIResource{}, subresources: map[string]*APIResource{}}
-			rm.groupVersions[r.APIVersion] = gve
-		}
-		gve.resources[r.Name] = r
-		gve.kinds[r.Kind] = r
-	}
+// VerifNewResourceMap builds a ResourceMap the way the running process does:
+// the REAL refresh() over a (fake) discovery client. No unexported field is
+// touched, so a refactoring of the map layout keeps the harnesses compiling,
+// and a defect in refresh() shows in every property that resolves resources.
+func VerifNewResourceMap(dc discovery.DiscoveryInterface) *ResourceMap {
+	rm := NewResourceMap(dc)
+	rm.refresh()
 	return rm
 }
